@@ -385,3 +385,38 @@ def r_elemadv(repo, tier):
     if n < 1:
         raise AnalysisError("R-ELEMADV: no element loop found (anchor changed)")
     return out
+
+
+# ======================================================================================= byte order prefix of struct formats
+def r_byteorder(repo, tier):
+    out = RuleOut(
+        "R-BYTEORDER",
+        "every struct.pack / unpack / unpack_from / pack_into / iter_unpack call of system/structs/fields.py builds its format from "
+        "the field's byte-order prefix (`self.order + ...` / a local bound to it): a format without it is read in the host's native "
+        "order (and with native alignment), whatever the structure declares",
+    )
+    m = repo.mod(FIELDS)
+    n = 0
+    for f in m.functions.values():
+        # locals bound to the order prefix
+        ordv = {"self.order"}
+        for a in ast.walk(f.node):
+            if isinstance(a, ast.Assign) and isinstance(a.targets[0], ast.Name) and "self.order" in norm(a.value):
+                ordv.add(a.targets[0].id)
+        if "order" in f.params():
+            ordv.add("order")
+        for c in ast.walk(f.node):
+            if isinstance(c, ast.Call) and isinstance(c.func, ast.Attribute) and isinstance(c.func.value, ast.Name) and c.func.value.id == "struct" and c.func.attr in ("pack", "unpack", "unpack_from", "pack_into", "iter_unpack") and c.args:
+                n += 1
+                fmt = c.args[0]
+                left = fmt
+                while isinstance(left, ast.BinOp) and isinstance(left.op, ast.Add):
+                    left = left.left
+                ok = norm(left) in ordv
+                out.inst("%s::%s@%d" % (f.key, norm(c)[:60], c.lineno), {"method": f.dqual, "call": norm(c)[:80], "format_starts_with_order": ok})
+                if not ok:
+                    out.report(FIELDS, f.dqual, "struct.%s format %s" % (c.func.attr, norm(fmt)[:50]), c.lineno, "%s calls struct.%s with the format `%s`, which does not start with the field's byte-order prefix: the value is decoded in host order, not in the order the structure declares" % (f.dqual, c.func.attr, norm(fmt)[:60]))
+    out.stats["struct_calls"] = n
+    if n < 8:
+        raise AnalysisError("R-BYTEORDER: only %d struct calls found in fields.py" % n)
+    return out
